@@ -130,6 +130,13 @@ func checkStep(c *run.Ctx, cl *scn.Cluster, t uint32, cands []scn.Cand, reopen b
 					fmt.Sprintf("block differs when the miner additionally tries and discards a %s candidate (tx type %d): %s", d.Kind, d.Tx.Type(), logDiff(rPure.Block, r3)))
 			}
 		}
+		if !found && rAlt != nil && rAlt.Block != nil && sameTxList(rAlt.Block, blk) && rAlt.Block.Hash() != blk.Hash() {
+			// the run with the discards at other positions of the list differs, no discard at its original position does:
+			// named by the change logs that differ, like the single-discard case
+			d := logDiff(blk, rAlt)
+			found = true
+			viol(fmt.Sprintf("discarded-tx-leaves-trace:%s", mech(d)), fmt.Sprintf("block differs when the miner tries the same discarded candidates at other positions of the list (packaged list equal): %s", d))
+		}
 		if !found {
 			viol("miner-result-depends-on-candidate-set", fmt.Sprintf("hash with all candidates %s, with survivors only %s, no single discard reproduces it", blk.Hash().Hex(), rPure.Block.Hash().Hex()))
 		}
